@@ -1,0 +1,188 @@
+// Verification hooks for the TCP transport (cfg(feature = "verif") only, adds code only):
+// `VerifTcpTransport` owns a real `TcpTransport` and forwards the crate-private `Transport`
+// trait methods and `Stream::poll_next` one to one, flattening `TransportEvent` to
+// (kind, connection id) and exposing a read-only dump of the bookkeeping maps.
+
+use super::*;
+
+use crate::{
+    crypto::ed25519::Keypair, executor::DefaultExecutor, transport::manager::TransportHandle,
+    BandwidthSink, PeerId,
+};
+
+use std::sync::atomic::{AtomicUsize, Ordering};
+
+/// `TransportEvent`, flattened.
+#[derive(Debug, Clone, Copy, PartialEq, Eq)]
+pub enum VerifTcpEvent {
+    PendingInbound(usize),
+    Opened(usize),
+    OpenFailure(usize),
+    /// Connection id, `endpoint.is_listener()`, the authenticated remote peer.
+    Established(usize, bool, PeerId),
+    DialFailure(usize),
+    Closed(usize),
+}
+
+/// Read-only dump of the bookkeeping of `TcpTransport` (keys sorted).
+#[derive(Debug, Clone, PartialEq, Eq, Default)]
+pub struct VerifTcpState {
+    pub next_connection_id: usize,
+    pub pending_dials: Vec<usize>,
+    pub pending_inbound_connections: Vec<usize>,
+    pub pending_raw_connections: usize,
+    pub pending_connections: usize,
+    pub opened: Vec<usize>,
+    /// Connection id, `AbortHandle::is_aborted()`.
+    pub cancel_futures: Vec<(usize, bool)>,
+    pub pending_open: Vec<usize>,
+}
+
+/// Shared DNS resolver handle (system configuration).
+#[derive(Clone)]
+pub struct VerifResolver(Arc<TokioResolver>);
+
+impl VerifResolver {
+    pub fn new() -> Option<Self> {
+        Some(Self(Arc::new(TokioResolver::builder_tokio().ok()?.build().ok()?)))
+    }
+}
+
+pub struct VerifTcpTransport {
+    inner: TcpTransport,
+    counter: Arc<AtomicUsize>,
+    peer: PeerId,
+    _rx: tokio::sync::mpsc::Receiver<crate::transport::manager::TransportManagerEvent>,
+}
+
+fn keys<V>(map: &HashMap<ConnectionId, V>) -> Vec<usize> {
+    let mut keys: Vec<usize> = map.keys().map(|id| id.verif_as_usize()).collect();
+    keys.sort();
+    keys
+}
+
+impl VerifTcpTransport {
+    /// Build the transport the way `Litep2p::new` does: a `TransportHandle` sharing the
+    /// connection-id counter with its owner, `TransportBuilder::new`.
+    pub fn new(
+        keypair: Keypair,
+        config: Config,
+        resolver: &VerifResolver,
+    ) -> crate::Result<(Self, Vec<Multiaddr>)> {
+        let (tx, rx) = tokio::sync::mpsc::channel(256);
+        let counter = Arc::new(AtomicUsize::new(0usize));
+        let peer = PeerId::from_public_key(&keypair.public().into());
+        let handle = TransportHandle {
+            executor: Arc::new(DefaultExecutor {}),
+            next_substream_id: Default::default(),
+            next_connection_id: counter.clone(),
+            keypair,
+            tx,
+            bandwidth_sink: BandwidthSink::new(),
+            protocols: HashMap::new(),
+        };
+        let (inner, addresses) =
+            <TcpTransport as TransportBuilder>::new(handle, config, resolver.0.clone())?;
+
+        Ok((
+            Self {
+                inner,
+                counter,
+                peer,
+                _rx: rx,
+            },
+            addresses,
+        ))
+    }
+
+    pub fn local_peer_id(&self) -> PeerId {
+        self.peer
+    }
+
+    /// What `TransportManager::next_connection_id` does on the shared counter.
+    pub fn draw_connection_id(&self) -> usize {
+        self.counter.fetch_add(1usize, Ordering::Relaxed)
+    }
+
+    pub fn dial(&mut self, connection_id: usize, address: Multiaddr) -> bool {
+        Transport::dial(&mut self.inner, ConnectionId::from(connection_id), address).is_ok()
+    }
+
+    pub fn open(&mut self, connection_id: usize, addresses: Vec<Multiaddr>) -> bool {
+        Transport::open(&mut self.inner, ConnectionId::from(connection_id), addresses).is_ok()
+    }
+
+    pub fn negotiate(&mut self, connection_id: usize) -> bool {
+        Transport::negotiate(&mut self.inner, ConnectionId::from(connection_id)).is_ok()
+    }
+
+    pub fn cancel(&mut self, connection_id: usize) {
+        Transport::cancel(&mut self.inner, ConnectionId::from(connection_id))
+    }
+
+    pub fn accept(
+        &mut self,
+        connection_id: usize,
+    ) -> Option<BoxFuture<'static, crate::Result<()>>> {
+        Transport::accept(&mut self.inner, ConnectionId::from(connection_id)).ok()
+    }
+
+    pub fn reject(&mut self, connection_id: usize) -> bool {
+        Transport::reject(&mut self.inner, ConnectionId::from(connection_id)).is_ok()
+    }
+
+    pub fn accept_pending(&mut self, connection_id: usize) -> bool {
+        Transport::accept_pending(&mut self.inner, ConnectionId::from(connection_id)).is_ok()
+    }
+
+    pub fn reject_pending(&mut self, connection_id: usize) -> bool {
+        Transport::reject_pending(&mut self.inner, ConnectionId::from(connection_id)).is_ok()
+    }
+
+    /// One call of `Stream::poll_next`. `Ready(None)`: the listener terminated.
+    pub fn poll_event(&mut self, cx: &mut Context<'_>) -> Poll<Option<VerifTcpEvent>> {
+        match Pin::new(&mut self.inner).poll_next(cx) {
+            Poll::Pending => Poll::Pending,
+            Poll::Ready(None) => Poll::Ready(None),
+            Poll::Ready(Some(event)) => Poll::Ready(Some(match event {
+                TransportEvent::PendingInboundConnection { connection_id } =>
+                    VerifTcpEvent::PendingInbound(connection_id.verif_as_usize()),
+                TransportEvent::ConnectionOpened { connection_id, .. } =>
+                    VerifTcpEvent::Opened(connection_id.verif_as_usize()),
+                TransportEvent::OpenFailure { connection_id, .. } =>
+                    VerifTcpEvent::OpenFailure(connection_id.verif_as_usize()),
+                TransportEvent::ConnectionEstablished { peer, endpoint } =>
+                    VerifTcpEvent::Established(
+                        endpoint.connection_id().verif_as_usize(),
+                        endpoint.is_listener(),
+                        peer,
+                    ),
+                TransportEvent::DialFailure { connection_id, .. } =>
+                    VerifTcpEvent::DialFailure(connection_id.verif_as_usize()),
+                TransportEvent::ConnectionClosed { connection_id, .. } =>
+                    VerifTcpEvent::Closed(connection_id.verif_as_usize()),
+            })),
+        }
+    }
+
+    pub fn state(&self) -> VerifTcpState {
+        let mut cancel_futures: Vec<(usize, bool)> = self
+            .inner
+            .cancel_futures
+            .iter()
+            .map(|(id, handle)| (id.verif_as_usize(), handle.is_aborted()))
+            .collect();
+        cancel_futures.sort();
+
+        VerifTcpState {
+            next_connection_id: self.counter.load(Ordering::Relaxed),
+            pending_dials: keys(&self.inner.pending_dials),
+            pending_inbound_connections: keys(&self.inner.pending_inbound_connections),
+            pending_raw_connections: self.inner.pending_raw_connections.len(),
+            pending_connections: self.inner.pending_connections.len(),
+            opened: keys(&self.inner.opened),
+            cancel_futures,
+            pending_open: keys(&self.inner.pending_open),
+        }
+    }
+}
